@@ -39,7 +39,7 @@ pub fn run(args: &Args) -> Report {
     let covered = covered_sites();
     let probe_mode = args.rest.iter().any(|a| a == "--probe-sites");
     let mut site_seen: BTreeMap<String, (u32, u32)> = BTreeMap::new(); // site -> (corruptions, reported)
-    let nmods = if args.thorough { 400 } else { 100 };
+    let nmods = if args.thorough { 1200 } else { 100 };
     for mi in 0..nmods {
         let mut gm = gen_module(&g, &mut rng, "", 2, [30, 60][mi % 2], true);
         gm.resolve_refs(&mut rng, 0);
@@ -143,7 +143,7 @@ pub fn run(args: &Args) -> Report {
         }
     }
     // 2b. modules with several dangling references at once: the report is exactly the dangling covered references
-    let ndang = if args.thorough { 300 } else { 100 };
+    let ndang = if args.thorough { 1200 } else { 100 };
     for mi in 0..ndang {
         let mut gm = gen_module(&g, &mut rng, "", 2, 50, true);
         gm.resolve_refs(&mut rng, 15);
@@ -176,7 +176,7 @@ pub fn run(args: &Args) -> Report {
     // 2c. the THIS. convention: AXIS_PTS_REF / CURVE_AXIS_REF THIS.x inside a TYPEDEF_CHARACTERISTIC designates the
     //     component x of every TYPEDEF_STRUCTURE that uses the typedef as a component (unless an INSTANCE uses the
     //     typedef directly, or no structure contains it: then the name is looked up like any other object)
-    let nthis = if args.thorough { 3000 } else { 300 };
+    let nthis = if args.thorough { 12000 } else { 300 };
     for k in 0..nthis {
         let pool = ["ax", "cv", "other", "z9"];
         let direct = rng.chance(1, 5);
@@ -253,7 +253,7 @@ pub fn run(args: &Args) -> Report {
         }
     }
     // 2d. structural tie: every branch of checker.rs, ordered report list, exact limits (Model/Checker.lean)
-    crate::c11full::run_family(&mut rep, &mut rng, if args.thorough { 6000 } else { 600 });
+    crate::c11full::run_family(&mut rep, &mut rng, if args.thorough { 24000 } else { 600 });
     // 3. totality on structurally odd files
     let odd = [
         "ASAP2_VERSION 1 71 /begin PROJECT p \"\" /begin MODULE m \"\" /end MODULE /end PROJECT".to_string(),
